@@ -14,10 +14,10 @@ from sim.worlds import routing as R
 EXAMPLE = {'/a': ['/a'], '/a/': ['/a/', '/a'], '/a/b': ['/a/b'], '/<x>': ['/q'], '/<x>/': ['/q/'], '/a/<n:int>': ['/a/7'],
            '/<x>/<y>': ['/q/r'], '/a/<rest+>': ['/a/b/c'], '/<rest*>': ['/', '/z/z/z'], '/b/<x?>': ['/b', '/b/q'],
            '/c/<n:int>/': ['/c/5/']}
-FAIL_KINDS = ['unresolved', 'badpattern', 'badpattern2', 'dupbinding', 'conflict-url-res', 'badmw', 'notaroute',
+FAIL_KINDS = ['badmw-instance', 'unresolved', 'badpattern', 'badpattern2', 'dupbinding', 'conflict-url-res', 'badmw', 'notaroute',
               'badtuple', 'bind-raises', 'sub-kth-fails', 'sub-kth-fails', 'sub-mw-dup', 'route-reserved-resource',
               'sub-kth-cycle', 'sub-kth-raises']
-N_CTOR_KINDS = 9
+N_CTOR_KINDS = 10
 
 
 class SimBindError(LookupError):
@@ -66,6 +66,27 @@ class RouteMarkMW(Middleware):
         except Exception:
             pass
         return resp
+
+
+class InstanceHookMW(Middleware):
+    """a middleware class whose hook is made per INSTANCE (like clastic's ContextProcessor): one instance may be fine and
+    another one of the same class unusable"""
+    unique = False
+
+    def __init__(self, good):
+        if good:
+            self.request = lambda next: next()
+        else:
+            self.request = lambda request: Response('hijacked')     # takes no next: not a middleware function
+
+
+class OddWrapperMW(Middleware):
+    """route-level middleware whose wsgi_wrapper attribute is not usable (route-level wrappers are not applied at all)"""
+    unique = False
+    wsgi_wrapper = 42
+
+    def request(self, next):
+        return next()
 
 
 class StampMW(Middleware):
@@ -121,7 +142,8 @@ class Pool(object):
             rr = dict((n, 'rv') for n in e.get('route_res', []))
             obj = Route(e['pattern'], R.make_endpoint(e['tag'], e['out']), 'tmpl' if e['out'] == 'ctx' else None,
                         methods=e['methods'], resources=rr,
-                        middlewares=[RouteMarkMW('mark-' + e['tag'])] if e.get('route_mw') else [])
+                        middlewares=([RouteMarkMW('mark-' + e['tag'])] if e.get('route_mw') else [])
+                        + ([OddWrapperMW()] if e.get('odd_wrapper') else []))
             self.routes[r] = (obj, e, self.snapshot(obj))
         return self.routes[r][0]
 
@@ -187,13 +209,13 @@ class C11(Check):
         napps = c.randint(2, 4)
         strict_run = c.random() < 0.25
         apps = [{'mode': c.choice(['strict', 'strict', 'redirect'] if strict_run else ['redirect', 'redirect', 'rewrite']),
-                 'nr_mw': c.random() < 0.4, 'factory': c.random() < 0.5, 'stamp': c.random() < 0.6, 'cyc_mw': c.random() < 0.5}
+                 'nr_mw': c.random() < 0.4, 'factory': c.random() < 0.5, 'stamp': c.random() < 0.6, 'cyc_mw': c.random() < 0.5, 'insthook': c.random() < 0.5}
                 for _ in range(napps)]
         pats = R.STRICT_OK if strict_run else sorted(R.CAT)      # strict mode: patterns with a single spelling per match
         routes = []
         for k in range(c.randint(3, 8)):
             routes.append({'pattern': c.choice(pats), 'methods': c.choice(R.METHOD_SETS), 'out': c.choice(R.OUTCOMES + ['ctx'] * 4),
-                           'tag': 'R%d' % k, 'route_res': ['rr%d' % k] if c.random() < 0.3 else [], 'route_mw': c.random() < 0.5})
+                           'tag': 'R%d' % k, 'route_res': ['rr%d' % k] if c.random() < 0.3 else [], 'route_mw': c.random() < 0.5, 'odd_wrapper': c.random() < 0.25})
         ops = []
         tagn = [0]
 
@@ -278,6 +300,8 @@ class C11(Check):
             return ('/<%s>' % anyres, ep)
         if kind == 'badmw':
             return Route('/zz', ep, middlewares=[NoNext()])
+        if kind == 'badmw-instance':
+            return Route('/zz', ep, middlewares=[InstanceHookMW(False)])
         if kind == 'notaroute':
             return 42
         if kind == 'badtuple':
@@ -321,6 +345,7 @@ class C11(Check):
     @staticmethod
     def app_mws(acfg, i):
         return (([NonReorderable()] if acfg.get('nr_mw') else []) + ([StampMW('S%d' % i)] if acfg.get('stamp') else [])
+                + ([InstanceHookMW(True)] if acfg.get('insthook') else [])
                 + ([CycX()] if acfg.get('cyc_mw') else []))
 
     # ---- execution ---------------------------------------------------------
